@@ -152,3 +152,83 @@ def stack_decide(t):
     if t == ('stack-nonempty',):
         return True
     return None
+
+
+class DepthStack(Model):
+    """scripts.Stack holding EXACTLY the given items (bottom .. top): the model for under-run scenarios. Indexing, slicing, pop and
+    slice assignment behave as on a Python list of that length - an out-of-range index or a pop from the empty stack ends the path
+    with a raise IndexError exit, a slice is silently truncated."""
+    cls = 'scripts:Stack'
+
+    def __init__(self, items):
+        self.items = list(items)
+
+    def copy(self):
+        return DepthStack(self.items)
+
+    def term(self):
+        return ('depthstack', tuple(term(x) for x in self.items))
+
+    def same(self, other):
+        return isinstance(other, DepthStack) and [term(x) for x in self.items] == [term(x) for x in other.items]
+
+    def merge(self, test, other):
+        if not isinstance(other, DepthStack) or len(other.items) != len(self.items):
+            return NotImplemented
+        return DepthStack([x if term(x) == term(y) else S(('cond', test, term(x), term(y)), 'bytes') for x, y in zip(self.items, other.items)])
+
+    def truth(self, interp, st):
+        return bool(self.items)
+
+    def length(self, interp, st):
+        return len(self.items)
+
+    def _index_error(self, interp, st, node):
+        from .sym import _AlwaysRaises
+        interp._exit('raise', st, S(('call', 'IndexError', (), ())), node)
+        raise _AlwaysRaises()
+
+    def _slice(self, idx):
+        lo, hi, step = idx[1], idx[2], idx[3]
+        if not all(v is None or isinstance(v, int) for v in (lo, hi, step)):
+            raise AnalysisError('stack slice with a run-time bound')
+        return slice(lo, hi, step)
+
+    def get_item(self, interp, idx, st):
+        if isinstance(idx, tuple) and idx and idx[0] == 'slice':
+            return list(self.items[self._slice(idx)])
+        if isinstance(idx, int):
+            if -len(self.items) <= idx < len(self.items):
+                return self.items[idx]
+            self._index_error(interp, st, None)
+        raise AnalysisError('stack index %r not modelled' % (idx,))
+
+    def set_item(self, interp, idx, value, st):
+        if isinstance(idx, tuple) and idx and idx[0] == 'slice' and isinstance(value, list):
+            self.items[self._slice(idx)] = list(value)
+            return None
+        if isinstance(idx, int):
+            if -len(self.items) <= idx < len(self.items):
+                self.items[idx] = value
+                return None
+            self._index_error(interp, st, None)
+        raise AnalysisError('stack item assignment not modelled')
+
+    def call_method(self, interp, name, args, kwargs, st, node):
+        if name == 'pop' and all(isinstance(a, int) for a in args) and len(args) <= 1:
+            try:
+                return self.items.pop(*args)
+            except IndexError:
+                self._index_error(interp, st, node)
+        if name == 'append' and len(args) == 1:
+            self.items.append(args[0])
+            return None
+        if name == 'extend' and len(args) == 1 and isinstance(args[0], (list, tuple)):
+            self.items.extend(args[0])
+            return None
+        if name == 'insert' and len(args) == 2 and isinstance(args[0], int):
+            self.items.insert(args[0], args[1])
+            return None
+        if name in ('pop', 'append', 'extend', 'insert', 'remove', 'index', 'count', 'reverse', 'sort', 'clear', 'copy'):
+            raise AnalysisError('stack method %s(%s) not modelled for a stack of known depth' % (name, ', '.join(show(term(a))[:20] for a in args)))
+        return NotImplemented
